@@ -94,6 +94,8 @@ def expand(ts, macros, budget):
             saw_endl = saw_endl or rest[k][0] == "$"
             k += 1
         if k >= len(rest) or rest[k][0] != "(":
+            if k < len(rest) and is_id(rest[k][0]) and rest[k][0] in macros and rest[k][0] not in rest[k][1]:
+                budget[2] = True     # the name is looked at while a macro name follows it: no invocation in C
             out.append((t, hs))
             ts = rest
             continue
@@ -142,9 +144,17 @@ def trim(a):
     return a
 
 
+# When set, every actual argument is expanded whether the replacement list uses it or not, as the preprocessor under
+# test does: an error inside an argument that C never looks at (a failing paste, a wrong argument count) then shows
+EAGER = [False]
+
+
 def subst(m, args, hs, macros, budget):
     body = m.body
     params = m.params or []
+    if EAGER[0]:
+        for a in args:
+            expand(list(a), macros, budget)
     res = []
     i = 0
     n = len(body)
@@ -216,8 +226,20 @@ def subst(m, args, hs, macros, budget):
     return [(x, h | hs) for x, h in res]
 
 
+# punctuation that is one token when glued (the lexer's multi-character symbols)
+_PUNCT = {"++", "--", "<<", ">>", "<=", ">=", "==", "!=", "&&", "||", "+=", "-=", "*=", "/=", "%=", "&=", "|=", "^=", "<<=", ">>=", "::", "##"}
+
+
 def single_token(s):
-    return re.match(r"^([A-Za-z_]\w*|\d+)$", s) is not None
+    return re.match(r"^([A-Za-z_]\w*|\d+)$", s) is not None or s in _PUNCT
+
+
+def run_case_eager(case):
+    EAGER[0] = True
+    try:
+        return run_case(case)
+    finally:
+        EAGER[0] = False
 
 
 def run_case(case):
@@ -235,7 +257,7 @@ def run_case(case):
         else:
             files[cur].append((p[0], p[1:]))
     macros, once, out = {}, set(), []
-    budget = [200000, False]
+    budget = [200000, False, False]
 
     def flush(block):
         if block:
@@ -276,8 +298,45 @@ def run_case(case):
     except Outside as e:
         return ("outside", str(e))
     except RefError as e:
-        return ("err", str(e), budget[1])
-    return ("ok", [t for t in out if not is_ws(t)], budget[1])
+        return ("err", str(e), budget[1], budget[2])
+    return ("ok", [t for t in out if not is_ws(t)], budget[1], budget[2])
+
+
+def paste_case(case):
+    """The case with every I item replaced by the items of the included file (a #pragma once file only the
+    first time), as one file; None when a file is missing or the nesting is too deep."""
+    parts = [p.split() for p in case.split(";")]
+    parts = [p for p in parts if p]
+    files, order, api, cur = {}, [], [], None
+    for p in parts:
+        if p[0] == "A":
+            api.append(p)
+        elif p[0] == "F":
+            cur = p[1]
+            files[cur] = []
+            order.append(cur)
+        else:
+            files[cur].append(p)
+    once, out = set(), []
+
+    def go(name, depth):
+        if depth > 40 or name not in files:
+            return False
+        if name in once:
+            return True
+        for p in files[name]:
+            if p[0] == "I":
+                if not go(p[1], depth + 1):
+                    return False
+            elif p[0] == "O":
+                once.add(name)
+            else:
+                out.append(p)
+        return True
+
+    if not order or not go(order[0], 0):
+        return None
+    return " ; ".join(" ".join(p) for p in api + [["F", order[0]]] + out)
 
 
 def program_facts(case):
